@@ -699,6 +699,10 @@ func (m *Model) step(e ev.E) Verdict {
 		if !fits(c, con) {
 			return Reject
 		}
+		if inMarker && e.AT == events.ArrayTypeReferenceRemote {
+			m.Reason = "marker-on-reference"
+			return Reject // markers are not placed on references, local or remote
+		}
 		if e.K == ev.Array && !isStringLike(e.AT) && uint64(len(e.Data)) != elemBytes(e.AT, e.U) {
 			m.Reason = "byte-count-mismatch"
 			return Reject
@@ -754,6 +758,10 @@ func (m *Model) step(e ev.E) Verdict {
 			}
 		}
 		if !fits(arrayClass(at), con) {
+			return Reject
+		}
+		if inMarker && at == events.ArrayTypeReferenceRemote {
+			m.Reason = "marker-on-reference"
 			return Reject
 		}
 		m.stack = append(m.stack, &frame{kind: fArray, at: at})
